@@ -255,7 +255,7 @@ func c08Stress(tier string, seed int64, idx int, scratch string) rt.CaseResult {
 	groups := map[string][]string{}
 	var allKeys []string
 	ng := 1 + rng.Intn(2)
-	wide := idx%4 == 3 // one commit writes 40 keys: a long run of sequence draws / record writes per commit
+	wide := idx%2 == 1 // one commit writes 40 keys: a long run of sequence draws / record writes per commit
 	if wide {
 		ng = 1
 	}
@@ -383,7 +383,7 @@ func c08Stress(tier string, seed int64, idx int, scratch string) rt.CaseResult {
 	nReaders := 3
 	perReader := tierN(tier, 60, 200)
 	if wide {
-		nReaders, perReader = 8, tierN(tier, 600, 1500)
+		nReaders, perReader = 10, tierN(tier, 3000, 6000)
 	}
 	readers := make([][]*c08Reader, nReaders)
 	var rwg sync.WaitGroup
